@@ -180,7 +180,7 @@ def job_client_reaction(ctx):
         if sat and p.ghost.get('inner') == 'ok':
             n_refused_err += 1
             ctx.add_violation('property', 'client DatagramPacketCodec::decode returns Err for a refused packet id (ends the reply task) instead of dropping the datagram',
-                              fn.name + '@refused', ex.concretize(model, p.st), {'entry': 'client_udp_refused_id', 'expect': 'err'})
+                              fn.name + '@refused', ex.concretize(model, p), {'entry': 'client_udp_refused_id', 'expect': 'err'})
         else:
             ctx.out.discharged += 1
     ctx.out.vacuity = [('decode paths explored', len(paths) > 3)]
